@@ -208,7 +208,8 @@ let run (op : string) (args : string list) : string =
       let ps = str_of_arg p in
       (match pattern_new ps with
        | Val pt ->
-           (match best2 (fuel_for ps) pt (str_of_arg a) (str_of_arg b) with
+           (* both matches through the work-list loop with unbounded iterations (C06_worklist_best_refines) *)
+           (match best2_w unbounded_fuel pt (str_of_arg a) (str_of_arg b) with
             | Some WNone -> "N" | Some WFirst -> "S:" ^ a | Some WSecond -> "S:" ^ b | None -> "FUEL")
        | Fail _ -> "E" | Panic _ -> "PANIC" | OutOfFuel -> "FUEL")
   | "pkgname", [s] ->
@@ -343,27 +344,33 @@ let run (op : string) (args : string list) : string =
              | Some m' -> go m' (k + 1) r | None -> "E:" ^ string_of_int k) in
       go meta_empty 0 ops
   | "db.iter", ents ->
+      (* a file is "<name>" (the harness writes " content of <name> \n"), "<NUL><name>" (empty) or "<name>=<bytes>" *)
+      let file_of t =
+        let (nm, content) = match String.index_opt t '=' with
+          | Some i -> (String.sub t 0 i, Some (str_of_arg (String.sub t (i + 1) (String.length t - i - 1))))
+          | None -> (t, None) in
+        match str_of_arg nm, content with
+        | N0 :: r, _ -> (r, [])
+        | n, Some c -> (n, c)
+        | n, None -> (n, lit_str " content of " @ n @ lit_str " \n") in
+      let files_of rest = match rest with f :: _ when f <> "" -> List.map file_of (String.split_on_char ',' f) | _ -> [] in
       let dirent_of a =
         match String.split_on_char ':' a with
-        | "f" :: name :: _ -> { de_name = str_of_arg name; de_is_dir = false; de_files = [] }
+        | "f" :: name :: _ -> ({ de_name = str_of_arg name; de_is_dir = false; de_files = [] }, [])
         | ("d" | "l") :: name :: rest ->   (* "l": a symbolic link to a directory - is_dir/exists follow links *)
-            let files = match rest with f :: _ when f <> "" -> List.map str_of_arg (String.split_on_char ',' f) | _ -> [] in
-            (* a leading NUL marks a file the harness creates empty: the model only knows which files exist *)
-            let strip = function N0 :: r -> r | l -> l in
-            { de_name = str_of_arg name; de_is_dir = true; de_files = List.map strip files }
+            let fs = files_of rest in
+            ({ de_name = str_of_arg name; de_is_dir = true; de_files = List.map fst fs }, fs)
         | _ -> failwith "dirent" in
-      let empty_comment a =
-        match String.split_on_char ':' a with
-        | ("d" | "l") :: name :: f :: _ when f <> "" ->
-            if List.exists (fun t -> str_of_arg t = N0 :: lit_str "+COMMENT") (String.split_on_char ',' f) then [str_of_arg name] else []
-        | _ -> [] in
-      let empties = List.concat_map empty_comment ents in
-      let pkgs = db_iter (List.map dirent_of ents) in
-      (* content of +COMMENT as written by the harness *)
-      let comment = " content of +COMMENT \n" in
-      let enc_s s = if s = "" then "-" else String.concat " " (List.map string_of_int (List.init (String.length s) (fun i -> Char.code s.[i]))) in
+      let ds = List.map dirent_of ents in
+      let pkgs = db_iter (List.map fst ds) in
+      (* what Package::read_metadata gives for the three mandatory entries: the model's pkg_read_file on the file's bytes *)
+      let rd name fname =
+        let fs = try List.assoc name (List.map (fun (d, fs) -> (d.de_name, fs)) ds) with Not_found -> [] in
+        match (try Some (List.assoc (lit_str fname) fs) with Not_found -> None) with
+        | None -> "<unreadable>"
+        | Some c -> (match pkg_read_file c with Some t -> arg_of_str t | None -> "<unreadable>") in
       let items = List.map (function
-        | Some p -> arg_of_str p.pk_name ^ "|" ^ arg_of_str p.pk_base ^ "|" ^ arg_of_str p.pk_version ^ "|" ^ enc_s (if List.mem p.pk_name empties then "" else comment)
+        | Some p -> String.concat "|" [arg_of_str p.pk_name; arg_of_str p.pk_base; arg_of_str p.pk_version; rd p.pk_name "+COMMENT"; rd p.pk_name "+CONTENTS"; rd p.pk_name "+DESC"]
         | None -> "ERR") pkgs in
       "OK:" ^ String.concat "#" (List.sort compare items)
   | "db.other", [k] ->
